@@ -10,6 +10,7 @@ import (
 	"errors"
 	"fmt"
 	"math/big"
+	"strings"
 	"time"
 )
 
@@ -147,6 +148,8 @@ func (k *genKeyT) pkcs8(p ForeignParams) []byte {
 		}
 	case "extra":
 		sc = append([]byte{0}, sc...)
+	case "extra2":
+		sc = append([]byte{0, 0}, sc...)
 	}
 	parts := [][]byte{derSmallInt(1), derOctets(sc)}
 	if p.P8 == "inner" || p.P8 == "both" {
@@ -199,7 +202,9 @@ func derName(subject []RDN, strType string) []byte {
 		tag := byte(0x0c)
 		switch strType {
 		case "printable":
-			if isPrintableASCII(r.V) {
+			// real CA certificates also put '&' and '*' into a PrintableString ("AT&T", "*.example.org");
+			// parsers accept that although the character set of X.680 does not have them
+			if isPrintableASCII(strings.NewReplacer("&", "", "*", "").Replace(r.V)) {
 				tag = 0x13
 			}
 		case "ia5":
